@@ -186,6 +186,44 @@ pub fn spec_child(x: u64, k: u64) -> u64 {
     }
 }
 
+/// Documented layout of a valid cell description (the formula `c05_layout` proves equal to the real
+/// `serialize` on every valid cell, pinned by the frozen first-quintant table).
+pub fn layout_bits(c: &A5Cell) -> u64 {
+    let r = c.resolution;
+    if r == -1 {
+        0
+    } else if r == 0 {
+        ((c.origin_id as u64) << 58) | (1u64 << 57)
+    } else {
+        let code = 5 * (c.origin_id as u64) + ((c.segment + 5 - QF[c.origin_id as usize]) % 5) as u64;
+        if r == 1 {
+            (code << 58) | (1u64 << 56)
+        } else {
+            let l = (r - 1) as u32;
+            (code << 58) | (c.s << (58 - 2 * l)) | (1u64 << (57 - 2 * l))
+        }
+    }
+}
+
+/// Contract model of `serialize` on valid cell descriptions (proved by `c05_layout`); it
+/// `assert!(false)`s when used outside the contract.
+pub fn serialize_model(c: &A5Cell) -> Result<u64, String> {
+    let r = c.resolution;
+    let ok = r >= -1
+        && r <= 29
+        && c.origin_id < 12
+        && c.segment < 5
+        && (if r >= 2 { c.s < (1u64 << (2 * (r - 1) as u32)) } else { c.s == 0 })
+        && (r >= 1 || c.segment == 0)
+        && (r >= 0 || c.origin_id == 0);
+    if ok {
+        Ok(layout_bits(c))
+    } else {
+        assert!(false, "serialize_model used outside its contract");
+        Err(String::new())
+    }
+}
+
 /// Parent one level up of a canonical cell of resolution ≥ 0 (equivalence: `oracle_parent_equiv`).
 pub fn spec_parent1(x: u64) -> u64 {
     let p = ctz64(x & M);
